@@ -297,6 +297,10 @@ def shaped_forests():
     out.append(("unit-kinds", Forest([ku("DW_TAG_type_unit", b"kt", [Die("DW_TAG_structure_type", [Attr("DW_AT_name", "DW_FORM_string", b"S")], [var(b"m")])]),
                                       cu(b"kc", [var(b"kcv"), imp(kp)]), kp,
                                       ku("DW_TAG_skeleton_unit", b"ks", []), ku("DW_TAG_type_unit", b"kt2", [var(b"t2v")])])))
+    # a partial unit that imports an empty partial unit and has DIEs after that import
+    ep_e = cu(b"epe", [], 4, True)
+    ep_p = cu(b"epp", [var(b"before"), imp(ep_e), var(b"after"), Die("DW_TAG_namespace", [], [imp(ep_e), var(b"in_ns")])], 4, True)
+    out.append(("import-empty-partial", Forest([cu(b"epd", [var(b"d1"), imp(ep_p), var(b"d2")]), ep_p, ep_e, cu(b"epd2", [imp(ep_e), var(b"only")], 5)])))
     # a compile unit that imports another compile unit, no partial unit anywhere
     cc_b = cu(b"ccb", [var(b"cb1"), Die("DW_TAG_namespace", [Attr("DW_AT_name", "DW_FORM_string", b"cbns")], [var(b"cb2")])], 5)
     out.append(("cu-imports-cu", Forest([cu(b"cca", [var(b"ca1"), imp(cc_b), var(b"ca2")]), cc_b])))
